@@ -267,6 +267,41 @@ func c17Close(p *chk.Prog, r *chk.Report) {
 			y.Check("connect:unexpected-asn-refused", posOf(w1, f), !w1.Found && !w2.Found, "", "an unexpected peer ASN does not close the socket and fail the connection attempt")
 		}
 	}
+	// the ASN that is compared is the one the peer states: the 4-byte-ASN capability, when present, always replaces the
+	// 2-byte field of the fixed header
+	rc := need(y, p, natPkg, "", "readCapabilities")
+	if rc != nil {
+		g := rc.Graph()
+		isAsn := func(e ast.Expr) bool { return rc.MatchNew("RET.asn", e) != nil }
+		okCap, nRead := true, 0
+		code65 := g.GPat(true, "CAP.Code == 65")
+		for _, c := range g.FindPat("binary.Read(R, binary.BigEndian, &T)") {
+			if !g.Dominated(c, code65) {
+				continue
+			}
+			nRead++
+			tgt := c.Node.(*ast.CallExpr).Args[2].(*ast.UnaryExpr).X
+			if isAsn(tgt) {
+				continue // read straight into the result
+			}
+			// read into a local: the local is stored into ret.asn on every path on which the read succeeded
+			same := func(e ast.Expr) bool { return rc.SameExpr(e, tgt) }
+			store := rc.IsAssignPat("RET.asn", "V", chk.H("V", same))
+			okRead := g.GErrNil(true, "binary.Read(R, binary.BigEndian, &T)", chk.H("T", same))
+			found := false
+			for _, fb := range g.Find(rc.IsAssignPat("RET.fbasn", "true")) {
+				found = true
+				if g.MustPass(c, func(n ast.Node) bool { return n == fb.Top }, false, store).Found {
+					okCap = false
+				}
+			}
+			_ = okRead
+			if !found {
+				okCap = false
+			}
+		}
+		y.Check("readCapabilities:capability-asn-replaces-header-asn", rc.Pos(), okCap && nRead == 1, "", "the ASN announced in the 4-byte-ASN capability does not always become the peer's ASN (a peer whose capability disagrees with its 2-byte field is compared by the wrong one)")
+	}
 }
 
 func c17Send(p *chk.Prog, r *chk.Report) {
